@@ -41,7 +41,7 @@ MIN_REACH = {
     "polls_during_write_in_progress": {"quick": 100, "thorough": 2000},
     "distinct_dfs_parts_exhausted": {"quick": 2, "thorough": 2},
     "growers_whose_result_write_failed_part_way": {"quick": 150, "thorough": 3000},
-    "growers_running_as_a_non_root_mpi_rank": {"quick": 150, "thorough": 3000},
+    "growers_running_as_a_non_root_mpi_rank": {"quick": 100, "thorough": 3000},
     "redundant_growers_that_found_the_crop_gone": {"quick": 30, "thorough": 600},
     "schedules_with_megabyte_results": {"quick": 9, "thorough": 40},
     "schedules_with_batches_of_120_settings": {"quick": 25, "thorough": 200},
